@@ -263,3 +263,59 @@ def c_set_new_initial_state(k):
                 k.prove_eq(f"{c.name}: q0 = its slice of the new configuration", c.q0, q_new[qd])
             if ud is not None:
                 k.prove_eq(f"{c.name}: u0 = its slice of the new velocity", c.u0, u_new[ud])
+
+
+# --------------------------------------------------------------------------- force laws: the reference length is part of the model
+def _force_law_reference(cls, sub_kind, given):
+    """Spring / KelvinVoigtElement / MaxwellElement: a reference length (angle) the user passed is kept for EVERY real value
+    - zero included: a spring of zero rest length, a torsional spring that is relaxed at angle 0 - by the first assembly
+    and by every re-assembly; a defaulted one (l_ref=None) is fixed by the FIRST assembly (C09) and a re-assembly from
+    another state (what restart does) must not move it."""
+    from cardillo.force_laws import KelvinVoigtElement, MaxwellElement, Spring
+    from cardillo.interactions import TwoPointInteraction
+
+    CLS = {"Spring": Spring, "KelvinVoigtElement": KelvinVoigtElement, "MaxwellElement": MaxwellElement}[cls]
+
+    def c(k):
+        k.covers(CLS.assembler_callback)
+        b1, b2 = _bodies(k)
+        if sub_kind == "TwoPointInteraction":
+            sub = TwoPointInteraction(b1, b2, B_r_CP1=k.reals("B1", 3), B_r_CP2=k.reals("B2", 3))
+        else:
+            sub = Revolute(b1, b2, axis=2, angle0=k.real("angle0", sample=lambda g: g.uniform(-3, 3)))
+        L = k.real("l_ref", sample=lambda g: g.choice([0.0, 0.0, 0.7, -1.3])) if given else None
+        if CLS is Spring:
+            el = Spring(sub, 2.0, l_ref=L, compliance_form=False)
+        elif CLS is KelvinVoigtElement:
+            el = KelvinVoigtElement(sub, 2.0, 0.5, l_ref=L, compliance_form=False)
+        else:
+            el = MaxwellElement(sub, 2.0, 0.5, l_ref=L)
+            el.my_qDOF = np.array([14])
+        ok, _ = k.no_raise("first assembly", el.assembler_callback, allowed=(AssertionError,))  # coincident points are rejected explicitly (C09)
+        if not ok:
+            return
+        first = el.l_ref
+        if given:
+            k.prove_eq("the reference passed by the user is kept by the first assembly", first, L)
+        else:
+            k.prove("a defaulted reference is fixed by the first assembly", first is not None)
+        # restart: the bodies get a new initial state (the mechanism moved rigidly: admissible for the joint, and for the
+        # two-point interaction additionally body 2 displaced, which changes the current length), then re-assembly
+        cvec, Pq = k.reals("c", 3), k.reals("Pq", 4)
+        k.assume(Pq @ Pq > 0)
+        b1.q0, b2.q0 = _moved(k, b1.q0, cvec, Pq), _moved(k, b2.q0, cvec, Pq)
+        if sub_kind == "TwoPointInteraction":
+            b2.q0 = np.concatenate([b2.q0[:3] + k.reals("shift", 3), b2.q0[3:]])
+        b1.t0 = b2.t0 = 1.0
+        ok, _ = k.no_raise("re-assembly", el.assembler_callback, allowed=(AssertionError,))
+        if not ok:
+            return
+        k.prove_eq("re-assembly from another state keeps the reference", el.l_ref, first)
+
+    return c
+
+
+for _cls in ("Spring", "KelvinVoigtElement", "MaxwellElement"):
+    for _sub in ("TwoPointInteraction", "Revolute"):
+        for _given in (True, False):
+            contract("C24", f"{_cls} on {_sub}/{'given' if _given else 'defaulted'} reference survives assembly and re-assembly", samples=2, timeout=60)(_force_law_reference(_cls, _sub, _given))
